@@ -31,12 +31,15 @@ def entry_shapes(ctx, prop):
     ctx.go_test("cctfe", run="TestShapes$", env={"VERIF_CASES": path, "VERIF_PROP": prop}, timeout=3000, name="shapes")
 
 
-def external_storage(ctx, nquick=60, nthorough=800):
+def external_storage(ctx, nquick=60, nthorough=800, storage="memory"):
     """ChainStore.tla behaviours (storage faults, detached cache writes, restarts with a cold cache) on twin instances:
-    what the direct mode serves is what the external-storage mode serves, or an error."""
+    what the direct mode serves is what the external-storage mode serves, or an error.
+    storage: the layer below the external twin - "memory" (default: the in-memory stand-in), "mysql" or "postgresql"
+    (the repository's SQL IssuanceChainStorage on the in-process database of harness/sqlfake; ChainStore.tla's Dialect)."""
+    suffix = {"memory": "", "mysql": "Mysql", "postgresql": "Postgresql"}[storage]
     behs = []
     for cap in ("Cap0", "Cap1"):
-        r = ctx.tlc("ctfe", "MCChainStore", "ChainStoreSim%s.cfg" % cap, simulate=ctx.pick(nquick, nthorough), depth=34, count=False)
+        r = ctx.tlc("ctfe", "MCChainStore", "ChainStoreSim%s%s.cfg" % (cap, suffix), simulate=ctx.pick(nquick, nthorough), depth=34, count=False)
         behs += r.records.get("BEH", [])
     if not behs:
         raise Infra("no ChainStore behaviours")
